@@ -45,7 +45,10 @@ class C05(Property):
             'directly (strict/throw) and through the constructor with default checks; composition_violation with None/True/explicit '
             'keys; composition_balance_vectors; mass/charge violation helpers; for accepted systems get_odesys: linear_invariants, '
             'B.f(c) at rational c on the symbolic rhs, analytic solver (preferred None / random lists incl. coupled ones) evaluated on the invariant manifold. '
-            'A case is non-trivial when it is a distinct JSON value with at least one reaction.')
+            'HISTORIES: 3-11 calls on one ReactionSystem object (composition_balance_vectors, check_balance, composition_violation, '
+            'get_odesys.linear_invariants) interleaved with sort_substances_inplace, re-ordering of rsys.substances, += of another system, '
+            'deleting / permuting reactions, re-assigning a composition; every observation compared with the stateless model on the current '
+            'state. A case is non-trivial when it is a distinct JSON value with at least one reaction.')
     assumptions = ('composition amounts are exact numbers (int / Fraction); decimal formula counts (floats) are outside the exact model',
                    'sympy Matrix.rref (reduced rows and pivots) is delegated: the model is given its output',
                    'numerical integration keeping the invariants to solver tolerance is runtime behaviour of the delegated integrator, '
@@ -151,6 +154,9 @@ class C05(Property):
         cases = []
         n_ode = max(12, n // 20)
         for i in range(n):
+            if i % 8 == 5:
+                cases.append(self._history(rng, tier))
+                continue
             subs, rxns, planted = self._system(rng, tier, formulas=rng.random() < 0.25)
             scale = rng.choice([1, 1, 1, [1, 2], [3, 2]])
             sj = [[k, _comp_json({e: kg.frac(scale) * v for e, v in c.items()})] for k, c in subs.items()]
@@ -192,6 +198,162 @@ class C05(Property):
                 c = dict(base, op='check_balance', strict=True, throw=True, via='method')
             cases.append(c)
         return cases
+
+
+    # ---- histories: several calls on ONE ReactionSystem object with mutations in between ------------------------
+    @staticmethod
+    def _pure_balanced(state):
+        comps = OrderedDict((k, _comp_of(cj)) for k, cj in state['subs'])
+        if any(v is None for v in comps.values()):
+            return None
+        keys = sorted({e for v in comps.values() for e in v})
+        return all(sum(Fraction(comps[k].get(e, 0)) * kg.net_of(s, k) for k in comps) == 0 for s in state['rxns'] for e in keys)
+
+    def _history(self, rng, tier):
+        subs, rxns, planted = self._system(rng, tier, formulas=rng.random() < 0.25)
+        sj = [[k, _comp_json(c)] for k, c in subs.items()]
+        rng.shuffle(sj)                                            # an order that sorting will change
+        state = {'subs': [list(p) for p in sj], 'rxns': [dict(r) for r in rxns]}
+        steps = []
+        fresh = [0]
+
+        def observe():
+            o = rng.random()
+            used = {k for s in state['rxns'] for k in kg.spec_keys(s)}
+            if o < 0.3 and state['rxns'] and self._pure_balanced(state) and all(k in used for k, _ in state['subs']):
+                return {'do': 'obs', 'op': 'odesys'}
+            if o < 0.6:
+                return {'do': 'obs', 'op': 'balance_vectors'}
+            if o < 0.85 or not state['rxns']:
+                return {'do': 'obs', 'op': 'check_balance', 'strict': rng.random() < 0.3, 'throw': rng.random() < 0.8}
+            return {'do': 'obs', 'op': 'comp_violation', 'i': rng.randrange(len(state['rxns']))}
+
+        steps.append(observe())
+        for _ in range(rng.randint(2, 5)):
+            m = rng.random()
+            names = [k for k, _ in state['subs']]
+            if m < 0.3:
+                st = {'do': 'sort_substances'}
+            elif m < 0.5 and len(names) > 1:
+                perm = list(range(len(names)))
+                rng.shuffle(perm)
+                st = {'do': 'reorder', 'perm': perm}
+            elif m < 0.68:
+                # `rsys += other`: a new reaction n K -> Q (balanced, or off by one in one key) with a new substance
+                withc = [(k, cj) for k, cj in state['subs'] if cj]
+                if not withc:
+                    st = {'do': 'sort_substances'}
+                else:
+                    k, cj = rng.choice(withc)
+                    n = rng.randint(1, 3)
+                    comp = [[e, rat_json(kg.frac(v) * n)] for e, v in cj]
+                    if rng.random() < 0.3:
+                        j = rng.randrange(len(comp))
+                        comp[j] = [comp[j][0], rat_json(kg.frac(comp[j][1]) + 1)]
+                    fresh[0] += 1
+                    st = {'do': 'iadd', 'sub': ['Q%d' % fresh[0], comp],
+                          'rxn': {'reac': [[k, n]], 'prod': [['Q%d' % fresh[0], 1]], 'inact_reac': [], 'inact_prod': [],
+                                  'param': 100 + fresh[0], 'ordered': True}}
+            elif m < 0.8 and state['rxns']:
+                st = {'do': 'delete', 'i': rng.randrange(len(state['rxns']))}
+            elif m < 0.92 and state['subs']:
+                # the composition of one substance is re-assigned (may break or restore the balance)
+                j = rng.randrange(len(state['subs']))
+                cj = state['subs'][j][1]
+                new = None if (cj is None or rng.random() < 0.15) else [[e, rat_json(kg.frac(v) + (1 if rng.random() < 0.5 else 0))] for e, v in cj]
+                if cj is None:
+                    new = [[rng.choice(ELEMENTS), 1]]
+                st = {'do': 'set_composition', 'key': state['subs'][j][0], 'comp': new}
+            elif len(state['rxns']) > 1:
+                perm = list(range(len(state['rxns'])))
+                rng.shuffle(perm)
+                st = {'do': 'permute_rxns', 'perm': perm}
+            else:
+                st = {'do': 'sort_substances'}
+            self._apply_pure(state, st)
+            steps.append(st)
+            for _ in range(rng.randint(1, 2)):
+                steps.append(observe())
+        return {'op': 'history', 'subs': sj, 'rxns': rxns, 'planted': planted, 'steps': steps, 'seed': rng.randrange(10 ** 9)}
+
+    @staticmethod
+    def _apply_pure(state, st):
+        d = st['do']
+        if d == 'sort_substances':
+            state['subs'] = sorted(state['subs'], key=lambda kv: kv[0])
+        elif d == 'reorder':
+            state['subs'] = [state['subs'][i] for i in st['perm']]
+        elif d == 'iadd':
+            state['subs'] = state['subs'] + [list(st['sub'])]
+            state['rxns'] = state['rxns'] + [st['rxn']]
+        elif d == 'delete':
+            state['rxns'] = [r for j, r in enumerate(state['rxns']) if j != st['i']]
+        elif d == 'set_composition':
+            state['subs'] = [[k, (st['comp'] if k == st['key'] else cj)] for k, cj in state['subs']]
+        elif d == 'permute_rxns':
+            state['rxns'] = [state['rxns'][i] for i in st['perm']]
+        else:
+            raise ValueError(d)
+
+    def _apply_real(self, rsys, st):
+        from chempy import ReactionSystem
+        d = st['do']
+        if d == 'sort_substances':
+            rsys.sort_substances_inplace()
+        elif d == 'reorder':
+            items = list(rsys.substances.items())
+            rsys.substances = OrderedDict(items[i] for i in st['perm'])
+        elif d == 'iadd':
+            other = ReactionSystem([kg.mk_reaction(st['rxn'], 'int')], self._substances([st['sub']]), checks=())
+            rsys += other
+        elif d == 'delete':
+            del rsys.rxns[st['i']]
+        elif d == 'set_composition':
+            rsys.substances[st['key']].composition = _comp_of(st['comp'])
+        elif d == 'permute_rxns':
+            rsys.rxns[:] = [rsys.rxns[i] for i in st['perm']]
+        else:
+            raise ValueError(d)
+        return rsys
+
+    def _single(self, state, st):
+        base = {'subs': [list(p) for p in state['subs']], 'rxns': [dict(r) for r in state['rxns']], 'planted': 'history'}
+        if st['op'] in ('balance_vectors', 'odesys'):
+            return dict(base, op='balance_vectors', observed=st['op'])
+        if st['op'] == 'check_balance':
+            return dict(base, op='check_balance', strict=st['strict'], throw=st['throw'], via='method')
+        if st['op'] == 'comp_violation':
+            return {'op': 'comp_violation', 'subs': base['subs'], 'rxn': state['rxns'][st['i']], 'i': st['i'], 'ckeys': None,
+                    'ret_keys': True, 'planted': 'history'}
+        raise ValueError(st['op'])
+
+    def _observe(self, rsys, m):
+        """one observation on an existing ReactionSystem object -> canonical line (same text as the single-step ops)"""
+        op = m['op']
+        try:
+            if op == 'check_balance':
+                try:
+                    return str(rsys.check_balance(strict=m['strict'], throw=m['throw']))
+                except ValueError as e:
+                    return self._balance_line(e, rsys.rxns)
+            if op == 'comp_violation':
+                net, ck = rsys.rxns[m['i']].composition_violation(rsys.substances, True)
+                return show_rat_list(map(kg.to_frac, net)) + ';' + show_int_list(ck)
+            if op == 'balance_vectors' and m.get('observed') == 'odesys':
+                from chempy.kinetics.ode import get_odesys
+                odesys, extra = get_odesys(rsys)
+                li = odesys.linear_invariants
+                rows = [] if li is None else li.tolist()
+                ck = [] if odesys.linear_invariant_names is None else [int(x) for x in odesys.linear_invariant_names]
+                if list(odesys.names) != list(rsys.substances):
+                    return 'names-differ'
+                return '[' + ','.join(show_rat_list(map(kg.to_frac, row)) for row in rows) + '];' + show_int_list(ck)
+            if op == 'balance_vectors':
+                B, ck = rsys.composition_balance_vectors()
+                return '[' + ','.join(show_rat_list(map(kg.to_frac, row)) for row in B) + '];' + show_int_list(ck)
+        except Exception as e:
+            return exc_name(e)
+        return '!unknown-op'
 
     # ---- real objects -----------------------------------------------------------------------
     def _substances(self, sj, masses=None):
@@ -255,6 +417,15 @@ class C05(Property):
         op = c.get('op')
         if not op:
             return None
+        if op == 'history':
+            state = {'subs': [list(p) for p in c['subs']], 'rxns': [dict(r) for r in c['rxns']]}
+            msteps = []
+            for st in c['steps']:
+                if st['do'] == 'obs':
+                    msteps.append(self.model_case(self._single(state, st)))
+                else:
+                    self._apply_pure(state, st)
+            return {'op': 'history', 'steps': msteps, 'orig': c}
         m = dict(c)
         if 'rxns' in c:
             m['rxns'] = [kg.readback(kg.mk_reaction(s, 'int'), s) for s in c['rxns']]
@@ -297,6 +468,17 @@ class C05(Property):
         from chempy import ReactionSystem
         op = c['op']
         try:
+            if op == 'history':
+                o = c['orig']
+                rsys, _ = self._rsys(o)
+                outs, j = [], 0
+                for st in o['steps']:
+                    if st['do'] == 'obs':
+                        outs.append(self._observe(rsys, c['steps'][j]))
+                        j += 1
+                    else:
+                        rsys = self._apply_real(rsys, st)
+                return ' | '.join(outs)
             if op == 'check_balance':
                 rxns = [kg.mk_reaction(s, 'int') for s in c['rxns']]
                 subs = self._substances(c['subs'])
@@ -352,6 +534,9 @@ class C05(Property):
         return '!unknown-op'
 
     def same(self, c, io, mo):
+        if c['op'] == 'history':
+            a, b = io.split(' | '), mo.split(' | ')
+            return len(a) == len(b) == len(c['steps']) and all(self.same(m, x, y) for m, x, y in zip(c['steps'], a, b))
         if c['op'] == 'elim_full':
             try:
                 ch, st, vals = mo.split(';')
@@ -395,6 +580,76 @@ class C05(Property):
             return self._oracle_vectors(c)
         if op == 'attr_violation':
             return self._oracle_attr(c)
+        if op == 'history':
+            return self._oracle_history(c)
+        return None
+
+    def _oracle_history(self, c):
+        """After every step: acceptance, composition vectors and conservation recomputed from the object's CURRENT public state
+        (reactions, compositions, substance order)."""
+        import random
+        rng = random.Random(c['seed'])
+        rsys, _ = self._rsys(c)
+        for n, st in enumerate(c['steps']):
+            if st['do'] != 'obs':
+                rsys = self._apply_real(rsys, st)
+                continue
+            where = 'step %d (%s after %s)' % (n, st['op'], [x['do'] for x in c['steps'][:n] if x['do'] != 'obs'])
+            order = list(rsys.substances)
+            comps = [rsys.substances[k].composition for k in order]
+            live = [{'reac': list(r.reac.items()), 'prod': list(r.prod.items()), 'inact_reac': list(r.inact_reac.items()),
+                     'inact_prod': list(r.inact_prod.items()), 'param': kg.to_frac(r.param)} for r in rsys.rxns]
+            has_all = all(v is not None for v in comps)
+            keys = sorted({e for v in comps if v is not None for e in v})
+            viol = None
+            if has_all:
+                viol = [[(e, net) for e in keys for net in [sum(Fraction(v.get(e, 0)) * kg.net_of(s, k) for k, v in zip(order, comps))]
+                         if net != 0] for s in live]
+            balanced = has_all and all(not v for v in viol)
+            if st['op'] == 'check_balance':
+                try:
+                    res, err = rsys.check_balance(strict=st['strict'], throw=True), None
+                except ValueError as e:
+                    res, err = False, str(e)
+                if not order and live:
+                    continue
+                want = (not st['strict']) if not has_all else balanced
+                if res != want:
+                    return '%s: current system is %s but check_balance %s (%s)' % (
+                        where, 'balanced' if balanced else ('without a composition' if not has_all else 'unbalanced'),
+                        'accepts' if res else 'rejects', err)
+            elif st['op'] in ('balance_vectors', 'odesys') and has_all:
+                want = [[Fraction(v.get(e, 0)) for v in comps] for e in keys]
+                if st['op'] == 'odesys':
+                    from chempy.kinetics.ode import get_odesys
+                    try:
+                        odesys, extra = get_odesys(rsys)
+                    except Exception as e:
+                        return '%s: get_odesys raised %s: %s' % (where, exc_name(e), str(e)[:120])
+                    li = odesys.linear_invariants
+                    B = [] if li is None else [[kg.to_frac(x) for x in row] for row in li.tolist()]
+                    if list(odesys.names) != order:
+                        return where + ': odesys.names differ from the current substance order'
+                else:
+                    Braw, ck = rsys.composition_balance_vectors()
+                    B = [[Fraction(x) for x in row] for row in Braw]
+                    if list(ck) != keys:
+                        return '%s: composition keys %s, current compositions have %s' % (where, list(ck), keys)
+                if B != want:
+                    return '%s: composition vectors %s do not list the compositions in the current substance order %s (expected %s)' % (
+                        where, [[str(x) for x in r] for r in B], order, [[str(x) for x in r] for r in want])
+                if balanced and live:
+                    conc = {k: Fraction(rng.randint(1, 30), rng.randint(1, 7)) for k in order}
+                    rates = rsys.rates(conc)
+                    for row, e in zip(B, keys):
+                        d = sum(b * kg.to_frac(rates.get(k, 0)) for b, k in zip(row, order))
+                        if d != 0:
+                            return '%s: reported vector of key %s is no invariant of the rates: B.f(c) = %s' % (where, e, d)
+            elif st['op'] == 'comp_violation' and has_all and order:
+                net, ck = rsys.rxns[st['i']].composition_violation(rsys.substances, True)
+                want = dict(viol[st['i']])
+                if [Fraction(x) for x in net] != [want.get(e, 0) for e in keys] or list(ck) != keys:
+                    return where + ': composition_violation differs from the current compositions'
         return None
 
     def _oracle_accept(self, c):
@@ -509,6 +764,8 @@ class C05(Property):
 
     def classify(self, c):
         op = c.get('op')
+        if op == 'history':
+            return 'history:' + '+'.join(sorted({x['do'] for x in c['steps'] if x['do'] != 'obs'}))
         p = c.get('planted')
         pl = 'balanced' if p == 'balanced' else ('unbalanced:charge' if p and p[2] == 0 else 'unbalanced:element')
         nocomp = any(cj is None for _, cj in c.get('subs', []))
